@@ -340,10 +340,16 @@ def aggregate(prop, tier, seed, results, t_start, write_baseline, extra_mod, qui
             for ob in r.get('obligations', []):
                 obligations.append(ob)
                 if ob['verdict'] not in ('proved',):
-                    if ob['verdict'] == 'refuted':
+                    w = ob.get('witness', {})
+                    if ob['verdict'] == 'refuted' and w.get('reproduced'):
+                        failures.append((ob['id'], ob.get('qualname', ''), ob.get('shape', ''), ob.get('clause', ''), w))
+                    elif ob['verdict'] == 'refuted' and baseline.get(ob['id']) == 'proved' and ob.get('kind') == 'public':
                         failures.append((ob['id'], ob.get('qualname', ''), ob.get('shape', ''), ob.get('clause', ''),
-                                         ob.get('witness', {})))
+                                         dict(w, no_failing_input=True)))
                     else:
+                        if ob['verdict'] == 'refuted':
+                            ob['verdict'] = 'undecided'
+                            ob['reason'] = 'static counterexample did not replay natively'
                         undecided.append(ob['id'])
             for b in r.get('bounded', []):
                 bounded_list.append(b)
